@@ -91,10 +91,10 @@ def check_A(S, p):
                 first = "%s:%d" % exp.skipped[0]
                 if st.rc == 0 or st.out or ("'%s'" % first).encode() not in st.err:
                     S.viol("C10:strict", "[%s] --strict must fail naming the first would-be-skipped record %s with empty stdout: rc %s stdout %r stderr %r" % (
-                        tag, first, st.rc, st.out[:100], st.err[:300]), dict(wit, strict=st.brief()))
+                        tag, first, st.rc, st.out[:100], st.err[:300]), dict(wit, strict=st.brief(), replay=__import__("vf.replay", fromlist=["x"]).reject(st, first)))
                 S.count("strict_failures_expected")
             elif st.rc != 0 or st.out != r.out:
-                S.viol("C10:strict-differs", "[%s] nothing is skipped but --strict output differs: rc %s %r vs %r" % (tag, st.rc, st.out[:100], r.out[:100]), dict(wit, strict=st.brief()))
+                S.viol("C10:strict-differs", "[%s] nothing is skipped but --strict output differs: rc %s %r vs %r" % (tag, st.rc, st.out[:100], r.out[:100]), dict(wit, strict=st.brief(), replay=__import__("vf.replay", fromlist=["x"]).same(r, st)))
 
 
 def check_L1_weights(S, p):
@@ -209,7 +209,9 @@ def check_B(S, p):
                     S.count("B_fault_runs")
                     S.count("B_%s" % (kind if kind.startswith("truncated") else kind.split("-")[0]))
                     S.observe("fault_positions", i)
-                    wit = {"level": "C", "kind": kind, "position": i, "records": R, "container": container, "argv": r.argv, "input_b64": E.b64(data), "run": r.brief()}
+                    from .. import replay as RP
+                    wit = {"level": "C", "kind": kind, "position": i, "records": R, "container": container, "argv": r.argv, "input_b64": E.b64(data), "run": r.brief(),
+                           "replay": RP.reject(r, site)}
                     tag = "B %s/%d %s at record %d/%d in %s -t %d" % (p["name"], si, kind, i, R, container, threads)
                     if r.panicked or r.signal:
                         from ..common import panic_sig
